@@ -553,6 +553,132 @@ def part_file(chk, drv):
     chk.cov["parts"]["file"]["op_distribution"] = kinds
 
 
+# ------------------------------------------------------------------ process-wide logger; identity by address reuse
+
+def gen_log_history(rng):
+    docs, alive, redirected = [], set(), set()
+    ops = []
+    nxt = 1
+    for _ in range(rng.randint(8, 22)):
+        k = rng.random()
+        if k < 0.18 or not alive:
+            d = nxt
+            nxt += 1
+            ops.append("c%d" % d)
+            alive.add(d)
+        elif k < 0.34:
+            d = rng.choice(sorted(alive))
+            ops.append("r%d%s" % (d, rng.choice("sssl")))
+            redirected.add(d)
+        elif k < 0.42 and len(alive) > 1:
+            d = rng.choice(sorted(alive))
+            ops.append("x%d" % d)
+            alive.discard(d)
+        else:
+            d = rng.choice(sorted(alive)) if rng.random() < 0.93 else rng.randint(1, nxt)
+            ops.append("e%d%s" % (d, rng.choice("wwoie")))
+    # always end by letting every survivor speak once more
+    for d in sorted(alive):
+        ops.append("e%dw" % d)
+    return ";".join(ops)
+
+
+LOG_CORPUS = [
+    # B before A, C after A's redirection, D after A is gone
+    "c1;e1w;c2;r2s;c3;e1w;e3w;e2w;e1i;e3o;x2;e1w;e3w;c4;e4w;e1e",
+    "c1;c2;r2l;e1w;e2w;r2s;e1o;e2i;x2;e1w",
+    "c1;r1s;c2;e2w;e1w;x1;e2w;c3;e3i",
+]
+
+
+def part_log(chk, drv, runner):
+    """specification: a document's output goes to std::cerr / std::cout (the default logger's sinks) unless THAT
+    document redirected it (then to its own stream), whatever other documents did or whether they still exist"""
+    hists = list(LOG_CORPUS) + [gen_log_history(chk.rng) for _ in range(150 if chk.tier == "quick" else 6000)]
+    lines = ["isolog " + h for h in hists]
+    impl = common.run_lines(drv, lines, shards=4)
+    model = common.run_lines(runner, lines, shards=4)
+    n = 0
+    tie = []
+    nontriv = set()
+    for h, i_out, m_out in zip(hists, impl, model):
+        alive, red = set(), set()
+        bad = None
+        steps = i_out.split("#")
+        ops = h.split(";")
+        if len(steps) != len(ops):
+            chk.violation({"kind": "property-fails-on-implementation", "part": "log", "why": "the driver did not survive the history",
+                           "output": i_out[:400], "replay": "isolog " + h})
+            continue
+        others_redirected = False
+        for op, st in zip(ops, steps):
+            n += 1
+            k, d, sub = op[0], int(re.match(r"\d+", op[1:]).group(0)), op[-1]
+            got = st.split("=", 1)[1]
+            if k == "c":
+                alive.add(d); red.discard(d); want = "ok"
+            elif d not in alive:
+                want = "skip"
+            elif k == "x":
+                alive.discard(d); want = "ok"
+            elif k == "r":
+                red.add(d); want = "ok"
+            else:
+                want = ("o%d" % d) if d in red else ("cout" if sub == "i" else "cerr")
+                if red - {d}:
+                    others_redirected = True
+            if got != want and bad is None:
+                bad = (op, got, want)
+        if bad:
+            chk.violation({"kind": "property-fails-on-implementation", "part": "log",
+                           "why": "the output of step %s arrived in [%s]; this document's output belongs in [%s] (only its own redirection may change that)" % bad,
+                           "history": h, "implementation": i_out, "model": m_out, "replay": "isolog " + h})
+        elif i_out != m_out:
+            tie.append((h, i_out, m_out))
+        elif others_redirected:
+            nontriv.add(h)
+    if tie:
+        h, i_out, m_out = tie[0]
+        chk.violation({"kind": "correspondence-broken", "correspondence": "corr:C20:logger-model", "differing_cases": len(tie),
+                       "history": h, "implementation": i_out, "model": m_out, "replay": "isolog " + h}, no_input=True)
+    chk.count("log", n, nontriv, samples=[{"history": hists[0], "implementation": impl[0]}])
+
+
+def part_copy(chk, drv):
+    """one destination, sources created / used / destroyed in a loop at the same address, same object ids copied each
+    round: every round's copies must equal the copies made when that source is the only one"""
+    wd = os.path.join(common.BUILD, "work", "C20-file")
+    os.makedirs(wd, exist_ok=True)
+    files = make_pdfs(wd)
+    allf = files["clean"] + files["nulls"]
+    lines = []
+    for k in range(24 if chk.tier == "quick" else 600):
+        fs = chk.rng.sample(allf, 3) + ([chk.rng.choice(allf)] if k % 2 else [])
+        lines.append("isocopy %d %d %s%s" % (chk.seed * 1000 + k, chk.rng.randint(3, 6), ",".join(fs), " heap" if k % 4 == 3 else ""))
+    outs = common.run_lines(drv, lines, shards=4)
+    n = 0
+    reused = 0
+    nontriv = set()
+    for line, out in zip(lines, outs):
+        if not out.startswith("addr="):
+            chk.violation({"kind": "property-fails-on-implementation", "part": "copy", "why": "the driver did not survive the history",
+                           "output": out[:400], "replay": line})
+            continue
+        rounds = out.split(" ")[1:]
+        n += len(rounds)
+        reused += out.startswith("addr=reused")
+        bad = [r for r in rounds if not r.endswith(":same")]
+        if bad:
+            chk.violation({"kind": "property-fails-on-implementation", "part": "copy",
+                           "why": "after earlier sources were destroyed, the copies the destination made from a new source (%s) differ from the copies a fresh "
+                                  "destination makes from that source alone" % bad[0],
+                           "output": out[:600], "replay": line})
+        else:
+            nontriv.add(line)
+    chk.count("copy", n, nontriv, samples=[{"run": lines[0], "output": outs[0][:200]}])
+    chk.cov["parts"]["copy"]["runs_with_source_address_reused"] = reused
+
+
 def run(chk):
     drv = os.path.join(common.DRV, "drv")
     runner = os.path.join(common.EXTRACT, "model_runner")
@@ -562,7 +688,8 @@ def run(chk):
                        "other documents, of handles obtained from them and of two fresh parses must be unchanged; non-trivial = history with "
                        ">= 4 performed calls on which the frame held and the model agrees, distinct by history text")
     import time
-    for name, fn in (("seq", lambda: part_seq(chk, drv, runner)), ("file", lambda: part_file(chk, drv)), ("thr", lambda: part_thr(chk))):
+    for name, fn in (("seq", lambda: part_seq(chk, drv, runner)), ("file", lambda: part_file(chk, drv)), ("log", lambda: part_log(chk, drv, runner)),
+                     ("copy", lambda: part_copy(chk, drv)), ("thr", lambda: part_thr(chk))):
         t0 = time.time()
         fn()
         if name in chk.cov["parts"]:
@@ -588,7 +715,11 @@ def replay(chk, rep):
         print("model         :", m[:2000])
         print("frame violations:", bad[:3] if bad else bad)
         return 1 if (bad or strip_hash(i) != m) else 0
-    if line and line.startswith("isofile "):
+    if line and line.startswith("isolog "):
+        print("implementation:", common.run_lines(drv, [line])[0])
+        print("model         :", common.run_lines(runner, [line])[0])
+        return 0
+    if line and (line.startswith("isofile ") or line.startswith("isocopy ")):
         out = common.run_lines(drv, [line])[0]
         print("\n".join(out.split("#")))
         return 0
